@@ -238,17 +238,16 @@ type group struct {
 }
 
 func (r *router) Route(method, routePath string, handlers []Handler) *Route {
-	if len(r.groups) > 0 {
-		groupPath := ""
-		hs := make([]Handler, 0)
-		for _, g := range r.groups {
-			groupPath += g.path
-			hs = append(hs, g.handlers...)
-		}
-
-		routePath = groupPath + routePath
-		handlers = append(hs, handlers...)
+	// Always work on a fresh slice: the caller's slice may be shared between several
+	// calls (Routes, Get with AutoHead, Combo) and handlers are wrapped in place below.
+	groupPath := ""
+	hs := make([]Handler, 0, len(handlers))
+	for _, g := range r.groups {
+		groupPath += g.path
+		hs = append(hs, g.handlers...)
 	}
+	routePath = groupPath + routePath
+	handlers = append(hs, handlers...)
 
 	validateAndWrapHandlers(handlers, r.handlerWrapper)
 	return r.addRoute(method, routePath, func(w http.ResponseWriter, req *http.Request, params route.Params) {
